@@ -482,6 +482,19 @@ pub fn eval_c07(sc: &Scenario, h: &History, signed: &Signeds, out: &mut Outcome)
                 if let Ok(lo) = sess.output(&o2) {
                     min_ada_fn_clause(k, &lo, &format!("op {} requested output with coin 0", i), out);
                 }
+                // the function clause speaks of *every* output: the same output with one more listed
+                // asset of quantity zero (never handed to the builder, only measured)
+                if !o.assets.is_empty() && i % 2 == 0 {
+                    let mut o3 = o.clone();
+                    o3.min_coin = false;
+                    o3.form = 0;
+                    let a0 = o3.assets[0].clone();
+                    o3.assets.push(AssetQ { p: a0.p, n: b"zeroqty".to_vec(), q: 0 });
+                    if let Ok(lo) = sess.output(&o3) {
+                        out.count("c07.min_ada_fn_with_zero_quantity_asset", 1);
+                        min_ada_fn_clause(k, &lo, &format!("op {} requested output plus a zero-quantity asset", i), out);
+                    }
+                }
             }
         }
     }
